@@ -213,7 +213,10 @@ fn run(c: &Case, st: &mut Stats) -> Result<(), String> {
             nf.header("authorization", "Fresh").map_err(|e| format!("header(): {:?}", e))?;
             st.class("caller_adds_own_cookie");
         }
-        prev_despite = h.despite_next || te_inherited;
+        // a request sent despite the method and repeated by a 307/308: whether the followed flow remembers the caller's wish is not
+        // stated; the caller states it again, so a body is due either way
+        let carried = prev_despite && matches!(h.status, 307 | 308);
+        prev_despite = h.despite_next || te_inherited || carried;
         if prev_despite {
             nf.send_body_despite_method();
             st.class("followed_flow_sends_body_despite_method");
